@@ -189,3 +189,164 @@ async def gen_case(rng, length, defer_cap=3):
 
 def gen_case_sync(rng, length):
     return asyncio.run(gen_case(rng, length))
+
+
+# ---------------------------------------------------------------------------------------------
+# Glob registrations on the real Workflow: startup.rescan_nglobs and process_nglob_changes
+# ---------------------------------------------------------------------------------------------
+# Graph.st has no glob registrations, so this part is a direct oracle on the implementation:
+# several registrations that share one pattern string but differ in their sub-patterns, owned by
+# the plan and by two other steps; a re-scan (restart) or a watch commit with nothing changed
+# must leave every step, stored hash and recorded match set alone; after adding or deleting one
+# file exactly the owners whose match set really changes (decided by an independent matcher)
+# lose their hash and become PENDING.
+
+NG_KEYS = "0123456789abcdefXYZ"
+NG_SUBS = [{}, {"k": "[0-9]"}, {"k": "[a-z]"}, {"k": "[A-Z]"}]
+
+
+def _ng_accepts(subs: dict, key: str) -> bool:
+    sub = subs.get("k")
+    if sub is None:
+        return True
+    return {"[0-9]": key.isdigit(), "[a-z]": key.islower() and key.isalpha(),
+            "[A-Z]": key.isupper() and key.isalpha()}[sub]
+
+
+async def _nglob_case(rng):
+    import contextlib
+    import json
+    import os
+    import tempfile
+
+    from stepup.core.hash import StepHash
+    from stepup.core.nglob import NamedGlob
+    from stepup.core.startup import rescan_nglobs
+    from stepup.core.step import Step
+
+    from .wfutil import WF
+
+    report = {"failures": [], "stats": {}}
+
+    def fail(sig, detail, witness):
+        report["failures"].append((sig, detail, witness))
+
+    with tempfile.TemporaryDirectory(prefix="c04-ng-") as tmp, contextlib.chdir(tmp):
+        os.mkdir("d")
+        keys = sorted(rng.sample(NG_KEYS, rng.randint(3, 7)))
+        for k in keys:
+            with open(f"d/p_{k}.txt", "w") as fh:
+                fh.write(k)
+        pattern = "d/p_${*k}.txt"
+        nreg = rng.randint(2, 4)
+        subs_list = rng.sample(NG_SUBS, nreg) if rng.random() < 0.8 else [rng.choice(NG_SUBS) for _ in range(nreg)]
+        owners = [rng.choice(["./plan.py", "a", "b"]) for _ in range(nreg)]
+        if rng.random() < 0.5:
+            owners[0] = owners[1] = "./plan.py"           # one plan registering the pattern twice
+        regs = list(zip(owners, subs_list))
+        witness = {"files": [f"d/p_{k}.txt" for k in keys], "pattern": pattern,
+                   "registrations": [[o, s] for o, s in regs]}
+        async with WF() as w:
+            wf, db = w.wf, w.db
+
+            def _snapshot():
+                steps = sorted(db.execute(
+                    "SELECT node.label, step.state, EXISTS(SELECT 1 FROM step_hash WHERE step_hash.node = step.node) "
+                    "FROM step JOIN node ON node.i = step.node").fetchall())
+                rows = []
+                for label, pat, data in db.execute(
+                        "SELECT node.label, nglob.pattern, nglob.data FROM nglob JOIN node ON node.i = nglob.node "
+                        "ORDER BY nglob.i"):
+                    ng = json.loads(data)
+                    rows.append((label, pat, json.dumps(ng, sort_keys=True)))
+                return steps, rows
+
+            async def snap():
+                async with db:
+                    return _snapshot()
+
+            async with db:
+                wf.define_step(w.plan, "a", inp_paths=[], out_paths=["oa"])
+                wf.define_step(w.plan, "b", inp_paths=[], out_paths=["ob"])
+                for owner, subs in regs:
+                    ng = NamedGlob(pattern, dict(subs))
+                    ng.glob()
+                    wf.register_nglob(wf.find(Step, owner), ng)
+                for label in ("a", "b", "./plan.py"):
+                    step = wf.find(Step, label)
+                    step.mark_completed(StepHash.from_inp(label, {}, {}, explained=False), False)
+            q = await snap()
+            rep = _NullReporter()
+            # nothing changed: restart-time re-scan, empty watch commit, watch commit that only names
+            # an unchanged existing match
+            await rescan_nglobs(wf, rep)
+            if (await snap()) != q:
+                fail("oracle:e2:nglob:restart:nochange-changed-the-graph",
+                     "startup.rescan_nglobs with nothing changed on disk altered steps / stored hashes / "
+                     f"recorded matches: steps before {q[0]}, after {(await snap())[0]}", witness)
+                return report
+            async with db:
+                wf.process_nglob_changes(set(), set())
+            async with db:
+                wf.process_nglob_changes(set(), {f"d/p_{keys[0]}.txt"})
+            if (await snap()) != q:
+                fail("oracle:e2:nglob:watch:nochange-changed-the-graph",
+                     "process_nglob_changes with an empty change set (and with an unchanged existing match) "
+                     f"altered steps / stored hashes / recorded matches: steps before {q[0]}, after {(await snap())[0]}",
+                     witness)
+                return report
+            report["stats"]["nglob:nochange"] = 1
+            # one file appears or disappears
+            flavour = rng.choice(["restart", "watch"])
+            if rng.random() < 0.6 or len(keys) < 2:
+                key = rng.choice([k for k in NG_KEYS if k not in keys])
+                with open(f"d/p_{key}.txt", "w") as fh:
+                    fh.write(key)
+                deleted, added = set(), {f"d/p_{key}.txt"}
+            else:
+                key = rng.choice(keys)
+                os.remove(f"d/p_{key}.txt")
+                deleted, added = {f"d/p_{key}.txt"}, set()
+            witness = dict(witness, flavour=flavour, deleted=sorted(deleted), added=sorted(added))
+            if flavour == "restart":
+                await rescan_nglobs(wf, rep)
+            else:
+                async with db:
+                    wf.process_nglob_changes(deleted, added)
+            expect_owners = {o for o, s in regs if _ng_accepts(s, key)}
+            steps0 = {l: (st, hh) for l, st, hh in q[0]}
+            steps1 = {l: (st, hh) for l, st, hh in (await snap())[0]}
+            touched = {l for l in steps1 if steps1[l] != steps0[l]}
+            wrong = sorted(l for l in touched if steps1[l] != (StepState.PENDING.value, 0))
+            report["stats"][f"nglob:change:{flavour}"] = 1
+            report["stats"]["nglob:owners_rerun"] = len(touched)
+            if touched != expect_owners or wrong:
+                fail(f"oracle:e2:nglob:{flavour}:wrong-steps-after-a-match-change",
+                     f"file {sorted(deleted | added)}: owners whose match set changes {sorted(expect_owners)}, "
+                     f"steps changed {sorted(touched)}, not PENDING-without-hash: {wrong}", witness)
+            # the recorded matches are now those of a fresh scan with the registration's own subs
+            rows1 = (await snap())[1]
+            for (label, pat, data), (owner, subs) in zip(rows1, regs):
+                fresh = NamedGlob(pattern, dict(subs))
+                fresh.glob()
+                got = sorted(str(p) for p in json_files(data))
+                want = sorted(f"d/p_{k}.txt" for k in (set(keys) | {key if added else None}) - ({key} if deleted else set())
+                              if k is not None and _ng_accepts(subs, k))
+                if got != want:
+                    fail(f"oracle:e2:nglob:{flavour}:recorded-matches-wrong",
+                         f"registration {owner} {subs}: recorded {got}, on disk {want}", witness)
+                    break
+    return report
+
+
+def json_files(data: str) -> list:
+    """Paths recorded in the JSON of an nglob row."""
+    import json
+
+    from stepup.core.cattrs import json_converter
+    from stepup.core.nglob import NamedGlob
+    return [str(p) for p in json_converter.structure(json.loads(data), NamedGlob).files()]
+
+
+def nglob_case_sync(rng):
+    return asyncio.run(_nglob_case(rng))
